@@ -29,7 +29,13 @@ RULE = ("sampled: R in 1..8 realizations, 1..3 objectives, 0..3 constraints, bat
         "filter maps mixing -1 / out-of-range ('no filter') and real indices, NaN masks of every density (per row: which "
         "objective/constraint columns carry the NaN), realization_min_success in 0..R or unset, plus an edge stream in "
         "which no successful realization carries weight and a small full-precision (53-bit) stream; thorough adds the "
-        "exhaustive grid 2 realizations x 2 functions x all NaN masks x all estimator/filter maps. "
+        "exhaustive grid 2 realizations x 2 functions x all NaN masks x all estimator/filter maps.  Streams added after the audit: "
+        "'interleaved' (3..4 objectives, 0..4 constraints, alternating estimator maps such as [0,1,0,1] and alternating filter maps "
+        "over 2..3 filters incl. two of the same method, so that neighbouring functions have different estimators and weight rows) and "
+        "'late-failure' (batches whose first vector is clean and whose later vectors fail, mostly through a NaN in a constraint column "
+        "only).  Entry path per case: EnsembleEvaluator.calculate (optionally preceded by 1..2 other calculate calls on the same "
+        "object), an evaluator step, or an optimizer step with a scripted optimizer that requests the batch -- for the steps the "
+        "results are what an observer of FINISHED_EVALUATION receives and the step's exit code is checked as well.  "
         "Non-trivial = at least two of {a failed realization, non-uniform realization weights, a filter in use, a stddev "
         "function, more than one vector}; distinct = distinct canonical case.")
 ASSUMPTIONS = [
@@ -37,6 +43,7 @@ ASSUMPTIONS = [
     "the weight vector returned by each realization filter for an evaluation is an input of the model (observed from the real filter plug-in on the same NaN-propagated values); what a filter must return is C04/C05",
     "realization and objective weights are non-negative with a positive sum (the configuration rejects a non-positive sum)",
     "function values are finite or NaN (no infinities)",
+    "no transforms are configured, so the 'results' delivered by the steps are the optimizer-domain results of calculate()",
 ]
 TRUSTED = [
     "NumPy float64 arithmetic of the implementation is compared with exact rational arithmetic with the tolerance of DESIGN 2.2; the standard deviation is compared through its square",
@@ -454,7 +461,7 @@ def run_impl(case):
             for pre in case.get("prelude", []):
                 # earlier evaluations on the same object (other vectors, other batch shapes) must leave no trace
                 try:
-                    ee.calculate(np.array([case["vectors"][i] for i in pre], dtype=np.float64),
+                    ee.calculate(np.array([case["vectors"][i % len(case["vectors"])] for i in pre], dtype=np.float64),
                                  compute_functions=True, compute_gradients=False)
                 except OptimizationAborted:
                     pass
@@ -568,8 +575,11 @@ def coq_case(case, obs):
     table = cq.lst(_rows([row[0] for row in blk], [row[1] for row in blk]) for blk in case["table"])
     fouts = cq.lst(cq.lst(_fout(f) for f in outs) for outs in obs["fouts"])
     reqs = cq.lst(f"({cq.nat(b)}, {cq.nat(r)})" for b, r in obs["requests"])
+    via = case.get("via", "calculate")
+    step = "None" if via == "calculate" or "exit" not in obs else \
+        f"(Some ({cq.b(via == 'optimizer-step')}, {cq.z(obs['exit'])}))"
     return (f"(Build_case {cq.q(magnitude(case))} {cfg_term(case, obs)} {cq.qs(case['w'])} {cq.qs(case['ow'])} "
-            f"{cq.nat(case['B'])} {table} {fouts} {reqs} {out})")
+            f"{cq.nat(case['B'])} {table} {fouts} {reqs} {out} {step})")
 
 
 # ---------------------------------------------------------------------------------------------------
@@ -726,7 +736,11 @@ def known_signature(case, obs, violation):
 def shrink(case):
     if case["B"] > 1:
         for b in range(case["B"]):
-            yield {**case, "B": 1, "vectors": [case["vectors"][b]], "table": [case["table"][b]]}
+            yield {**case, "B": 1, "vectors": [case["vectors"][b]], "table": [case["table"][b]], "prelude": []}
+    if case.get("prelude"):
+        yield {**case, "prelude": []}
+    if case.get("via", "calculate") != "calculate":
+        yield {**case, "via": "calculate"}
     for b, blk in enumerate(case["table"]):
         for r, (o, c) in enumerate(blk):
             for j, x in enumerate(o + c):
@@ -768,8 +782,14 @@ MANIFEST = {
                    "entries cannot influence it.  C01_rows_in_force: after _calculate_filtered_realization_weights the row of function "
                    "j is the output of the filter its index map names and the configured weights otherwise, also next to filtered rows "
                    "(F01).  C01_layout / C01_batch_invariance: the request layout is the full (vector, realization) product and the "
-                   "result for vector b of a batch is the result of evaluating b alone.  C01_example: non-vacuity."),
-    "level_note": ("All 10 theorems print 'Closed under the global context'; none is partial.  Hypotheses: the weight row has one entry "
+                   "result for vector b of a batch is the result of evaluating b alone.  C01_reported_objectives / C01_reported_constraints "
+                   "(end to end): whenever the model of _calculate_one_set_of_functions (NaN propagation, flags, filtered weights, gate, "
+                   "estimator dispatch) reports values, function j is the renormalised weighted mean, resp. N/(N-1)-corrected variance, of "
+                   "the RAW evaluator values of the surviving realizations under the weight row in force for j.  C01_example, "
+                   "C01_example_reported: non-vacuity."),
+    "level_note": ("All 12 theorems print 'Closed under the global context'; none is partial.  'Evaluation order does not influence the "
+                   "numbers' has no theorem (the model is stateless, a statement would be vacuous); it is covered by the correspondence "
+                   "only (earlier calculate calls on the same object).  Hypotheses: the weight row has one entry "
                    "per realization; C01_var_spec additionally assumes non-negative weights (the configuration guarantees it) and at "
                    "least two positive surviving weights (the complementary cases are C01_var_too_few and the 0/0 case).  "
                    "Trusted / modelled-not-verified: that Model/Ensemble.v is the code is not proved but checked on every run by the "
